@@ -60,6 +60,7 @@ func workerMain(args []string) int {
 		return 2
 	}
 	t0 := time.Now()
+	trace := os.Getenv("VERIF_TRACE") != ""
 	ctx := NewRunCtx()
 	res := &ShardResult{Property: prop, Shard: shard, Of: of}
 	n := e.Count(tier)
@@ -67,6 +68,9 @@ func workerMain(args []string) int {
 	for i := shard; i < n; i += of {
 		sc := e.Gen(DeriveSeed(seed, prop, i), i, tier)
 		res.Scenarios++
+		if trace {
+			fmt.Fprintf(os.Stderr, "[trace] shard %d scenario %d t=%.1fs\n", shard, i, time.Since(t0).Seconds())
+		}
 		f, im := runGuarded(e, sc, ctx)
 		if im != "" {
 			res.Infra = append(res.Infra, fmt.Sprintf("scenario %d: %s", i, im))
